@@ -67,13 +67,14 @@ def assigns_to_attr(P, func, attr):
     return out
 
 
-def local_dict_for(func, name, before_line):
-    """dict literal most recently assigned to local `name` before line"""
+def local_dict_for(func, name, before):
+    """dict literal most recently assigned to local `name` before the node `before` (source order)"""
     best = None
+    lim = ordr(func, before)
     for n in ast.walk(func.node):
         if isinstance(n, ast.Assign) and len(n.targets) == 1 and isinstance(n.targets[0], ast.Name) \
-                and n.targets[0].id == name and isinstance(n.value, ast.Dict) and n.lineno <= before_line:
-            if best is None or n.lineno > best.lineno:
+                and n.targets[0].id == name and isinstance(n.value, ast.Dict) and ordr(func, n) <= lim:
+            if best is None or ordr(func, n) > ordr(func, best):
                 best = n
     return best.value if best is not None else None
 
@@ -90,7 +91,7 @@ def send_sites(ctx, func):
             if isinstance(m, ast.Dict):
                 d = m
             elif isinstance(m, ast.Name):
-                d = local_dict_for(func, m.id, c.lineno)
+                d = local_dict_for(func, m.id, c)
             if d is not None:
                 out.append((c, d, dict_type(d), c.args[0]))
             else:
@@ -424,3 +425,116 @@ def loop_sources(func):
         if isinstance(n, ast.For):
             bind(n.target, n.iter)
     return out
+
+
+def ordr(func, node):
+    """position of `node` in the source order of func's body (depth-first, fields in syntactic order).  Line numbers do
+    not order statements in the helper-inlined view (an inlined body keeps the line numbers of the helper it came
+    from), this does in both views.  Nodes that are not part of the function tree (synthesised ones) are placed by the
+    last real node that does not lie after their line."""
+    m = func.__dict__.get('_ord')
+    if m is None:
+        m = {}
+        cnt = [0]
+
+        def walk(n):
+            m[id(n)] = cnt[0]
+            cnt[0] += 1
+            for c in ast.iter_child_nodes(n):
+                walk(c)
+        walk(func.node)
+        func.__dict__['_ord'] = m
+        func.__dict__['_ord_lines'] = None
+    if id(node) in m:
+        return m[id(node)]
+    ln = getattr(node, 'lineno', None)
+    if ln is None:
+        return 0
+    best = 0
+    for n in ast.walk(func.node):
+        if getattr(n, 'lineno', None) is not None and n.lineno <= ln and m.get(id(n), 0) > best:
+            best = m[id(n)]
+    return best
+
+
+def decision_nodes(cfg, func, test):
+    """the CFG decision nodes that branch on the expression `test`: the cond node(s) holding it, or -- when the test was
+    computed into a boolean local first (`ok = count > n` ... `if ok:` / `if not ok:`) -- the cond nodes on that local;
+    their ('cond', True) edge is the test being true in both cases"""
+    direct = [n for n in nodes_containing(cfg, test) if n.kind == 'cond']
+    if direct:
+        return direct
+    for n in nodes_containing(cfg, test):
+        st = n.ast
+        if n.kind == 'stmt' and isinstance(st, ast.Assign) and len(st.targets) == 1 and isinstance(st.targets[0], ast.Name) and st.value is test:
+            name = st.targets[0].id
+            defs = [d for d in walk_no_nested(func.node) if isinstance(d, ast.Assign) and any(isinstance(t, ast.Name) and t.id == name for t in d.targets)]
+            if len(defs) != 1:
+                continue
+            return [c for c in cfg.nodes if c.kind == 'cond' and isinstance(c.ast, ast.Name) and c.ast.id == name]
+    return []
+
+
+def handler_returns(cfg, ref):
+    """ids of the nodes at which the code around CFG node `ref` is left by a return: real `return` statements and, in the
+    helper-inlined view, the returns of the inlined helper body `ref` itself lives in (returns of helpers nested deeper
+    only leave that helper)"""
+    from .inline import InlineBlock, InlineReturn
+    chain = [id(p) for p in ref.parents if isinstance(p, InlineBlock)]
+    out = []
+    for n in cfg.nodes:
+        if n.kind != 'stmt':
+            continue
+        if isinstance(n.ast, ast.Return):
+            out.append(n.id)
+        elif isinstance(n.ast, InlineReturn):
+            mine = [id(p) for p in n.parents if isinstance(p, InlineBlock)]
+            if mine and mine[-1] in chain:
+                out.append(n.id)
+    return out
+
+
+def bool_returns_normalised(P, func):
+    """func, or -- when it returns boolean expressions -- a private copy in which every `return <test>` (a comparison,
+    and/or, not) reads `if <test>: return True` / `return False`: the rules that ask "under which facts is True
+    returned" then see the test as a branch.  Truthiness of the returned value is unchanged."""
+    import copy
+    from .pyir import FuncInfo
+
+    class T(ast.NodeTransformer):
+        changed = False
+
+        def visit_FunctionDef(self, n):
+            if n is not self.root:
+                return n
+            self.generic_visit(n)
+            return n
+
+        def visit_Lambda(self, n):
+            return n
+
+        def visit_Return(self, n):
+            if isinstance(n.value, (ast.BoolOp, ast.Compare)) or (isinstance(n.value, ast.UnaryOp) and isinstance(n.value.op, ast.Not)):
+                self.changed = True
+                t = ast.Return(value=ast.Constant(value=True))
+                f_ = ast.Return(value=ast.Constant(value=False))
+                new = ast.If(test=n.value, body=[t], orelse=[f_])
+                for x in (t, f_, new, t.value, f_.value):
+                    ast.copy_location(x, n)
+                return new
+            return n
+    cache = P.__dict__.setdefault('_bool_norm', {})
+    if func.qualname in cache:
+        return cache[func.qualname]
+    node2 = copy.deepcopy(func.node)
+    tr = T()
+    tr.root = node2
+    tr.visit(node2)
+    if not tr.changed:
+        cache[func.qualname] = func
+        return func
+    node2.name = func.node.name + '__boolret'
+    ast.fix_missing_locations(node2)
+    f2 = FuncInfo(func.module, func.cls, node2, func.parent)
+    cache[func.qualname] = f2
+    return f2
